@@ -1,9 +1,120 @@
 import StraxModel.Driver.Parse
-namespace Strax.Driver
-open Strax
+import StraxModel.Model.Mailbox
+/-
+  Driver ops of the mailbox transition system (shared by C05 / C06 / C13).
 
-/-- ops of property C05 (stub: no ops yet) -/
+  `c05.run <cap> <lazy> <drive> <prog> <workers> <kills> <schedule>`
+     cap      `inf` | n
+     lazy     0 | 1
+     drive    one 0/1 character per subscriber, e.g. `10`
+     prog     `-` | items joined by `,` ; item = `x` (source raises) | [`<n>@`]`p<v>` | [`<n>@`]`f<id>:<v>`
+     workers  `-` | lists joined by `;` ; list = `_` (empty) | future ids joined by `.`
+     kills    `-` | one `u` (upstream) / `d` character per killer thread
+     schedule `-` | thread tokens joined by `,` ; `S`, `R<i>`, `W<j>`, `K<k>`
+  answer: `ok <snap_0>;<snap_1>;…;<snap_k> end=<final|deadlock|running|stuck@i> got=<g_0>/<g_1>… pcs=<…>`
+  with one snapshot per state visited (`heap|have_read|waiting_for|closed killed force|n_sent|enabled`).
+-/
+namespace Strax.Driver
+open Strax Strax.Mailbox
+
+def parseMsgBody (s : String) : Option Msg :=
+  if s.startsWith "p" then do pure (.plain (← (s.drop 1).toString.toNat?))
+  else if s.startsWith "f" then
+    match (s.drop 1).toString.splitOn ":" with
+    | [a, b] => do pure (.fut (← a.toNat?) (← b.toNat?))
+    | _ => none
+  else none
+
+def parseSrcItem (s : String) : Option SrcItem :=
+  if s == "x" then some .raise
+  else match s.splitOn "@" with
+    | [b] => do pure (.item none (← parseMsgBody b))
+    | [n, b] => do pure (.item (some (← n.toNat?)) (← parseMsgBody b))
+    | _ => none
+
+def parseBits (s : String) (one zero : Char) : Option (List Bool) :=
+  if s == "-" then some [] else
+  s.toList.mapM fun c => if c == one then some true else if c == zero then some false else none
+
+def parseWorkers (s : String) : Option (List (List Nat)) :=
+  if s == "-" then some [] else
+  (s.splitOn ";").mapM fun w => if w == "_" then some [] else (w.splitOn ".").mapM (·.toNat?)
+
+def parseThread (s : String) : Option ThreadId :=
+  if s == "S" then some .sender
+  else if s.startsWith "R" then (s.drop 1).toString.toNat?.map .reader
+  else if s.startsWith "W" then (s.drop 1).toString.toNat?.map .worker
+  else if s.startsWith "K" then (s.drop 1).toString.toNat?.map .killer
+  else none
+
+def parseMbConfig (cap lazy drive prog workers kills : String) : Option Config := do
+  let cap ← if cap == "inf" then some none else cap.toNat?.map some
+  let lazy ← parseBool lazy
+  let drive ← parseBits drive '1' '0'
+  let prog ← (splitList prog ",").mapM parseSrcItem
+  let workers ← parseWorkers workers
+  let kills ← parseBits kills 'u' 'd'
+  pure ⟨cap, lazy, drive, prog, workers, kills⟩
+
+def showThread : ThreadId → String
+  | .sender => "S"
+  | .reader i => s!"R{i}"
+  | .worker j => s!"W{j}"
+  | .killer k => s!"K{k}"
+
+def dotted (l : List String) : String := if l.isEmpty then "_" else ".".intercalate l
+
+def b01 (b : Bool) : String := if b then "1" else "0"
+
+def showSnap (s : Sys) : String :=
+  let heap := (s.mb.heap.map (·.1)).mergeSort (· ≤ ·)
+  let hr := s.mb.next.map fun (n : Nat) => toString (Int.ofNat n - 1)
+  let wf := s.mb.waitingFor.map fun w => match w with
+    | none => "n"
+    | some x => toString x
+  s!"{dotted (heap.map toString)}|{dotted hr}|{dotted wf}|{b01 s.mb.closed}{b01 s.mb.killed}{b01 s.mb.forceKilled}|{s.mb.nSent}|{dotted (s.enabled.map showThread)}"
+
+def showSPc : SPc → String
+  | .done => "done"
+  | .dead e => s!"dead({e.name})"
+  | _ => "run"
+
+def showRPc : RPc → String
+  | .done => "done"
+  | .dead e => s!"dead({e.name})"
+  | _ => "run"
+
+def showPcs (s : Sys) : String :=
+  let rs := (List.range s.rpc.length).zip s.rpc |>.map fun (i, p) => s!"R{i}:{showRPc p}"
+  let ws := (List.range s.workers.length).zip s.workers |>.map fun (j, w) => s!"W{j}:{if w.isEmpty then "done" else "run"}"
+  let ks := (List.range s.killers.length).zip s.killers |>.map fun (k, w) => s!"K{k}:{if w.isNone then "done" else "run"}"
+  ",".intercalate ([s!"S:{showSPc s.spc}"] ++ rs ++ ws ++ ks)
+
+def showGot (s : Sys) : String :=
+  if s.got.isEmpty then "-" else "/".intercalate (s.got.map fun g => dotted (g.map toString))
+
+/-- run the schedule, collecting one snapshot per visited state -/
+def runTrace (s : Sys) (acc : List String) (k : Nat) : List ThreadId → Sys × List String × Option Nat
+  | [] => (s, acc, none)
+  | t :: ts =>
+    match step s t with
+    | some s' => runTrace s' (showSnap s' :: acc) (k + 1) ts
+    | none => (s, acc, some k)
+
+def mbRun (c : Config) (sched : List ThreadId) : String :=
+  let s0 := init c
+  let (s, snaps, stuck) := runTrace s0 [showSnap s0] 0 sched
+  let status := match stuck with
+    | some k => s!"stuck@{k}"
+    | none => if s.final then "final" else if s.enabled.isEmpty then "deadlock" else "running"
+  s!"ok {";".intercalate snaps.reverse} end={status} got={showGot s} pcs={showPcs s}"
+
+/-- ops of property C05 (and the shared mailbox model) -/
 def handleC05 : List String → Option String
+  | ["c05.run", cap, lazy, drive, prog, workers, kills, sched] => do
+    let c ← parseMbConfig cap lazy drive prog workers kills
+    let sched ← (splitList sched ",").mapM parseThread
+    pure (mbRun c sched)
   | _ => none
 
 end Strax.Driver
